@@ -68,6 +68,19 @@ def render_with_noise(r, nested, comments=True, uncommon=None):
             os.environ.get('VERIF_UNCOMMON') == '1'
     lines = []
     for c in nested:
+        if comments and isinstance(c, list) and r.random() < 0.12:
+            # a comment *inside* the command (the reader keeps it as a child
+            # of the s-expression it stands in)
+            import copy
+            c = copy.deepcopy(c)
+            lists, stack = [], [c]
+            while stack:
+                x = stack.pop()
+                lists.append(x)
+                stack.extend(y for y in x if isinstance(y, list))
+            x = r.choice(lists)
+            x.insert(r.randint(min(1, len(x)), len(x)),
+                     r.choice(['; inner', ';', '; (x) "y |z']))
         line = refreader.render([c]).rstrip('\n')
         if comments and r.random() < 0.15:
             lines.append('; comment (with parens) "and quotes"')
